@@ -419,7 +419,7 @@ func genC05Mask(r *rng, n int, w *bufio.Writer) {
 		if r.chance(1, 4) {
 			sb.WriteString(genPattern(r))
 		}
-		for k, m := 0, r.n(9); k < m; k++ {
+		for k, m := 0, nCount(r, r.n(9), 12, 9, 400); k < m; k++ { // 1 pattern in 12: log-scale up to 400 tokens
 			sb.WriteString(pick(r, rich))
 		}
 		emit(sb.String())
